@@ -206,6 +206,26 @@ pub fn run(ctx: &Ctx) {
     });
   }
   ctx.subspace(&format!("civil dates of {} years ({} dates) x 5 series (Nines, Dog days, Plum rains, pentads, commanding stems)", years.len(), n), done, n);
+  if ctx.quick() {
+    // every year 2..9998: the days on which a Nine / Dog-day / Plum-rain period starts, changes or ends according to the
+    // model, and the day before each (where a mis-anchored series shows), so that years outside the windows are not blind
+    let (a, b) = civ.year_range(2, 9998);
+    let done = par_chunks(ctx, a, b, 4096, |x, y, l| {
+      let mut prev: Option<Series> = if x > 0 { model(&civ, &tm, x - 1) } else { None };
+      for o in x..y {
+        let cur = model(&civ, &tm, o);
+        if let (Some(p), Some(c)) = (&prev, &cur) {
+          let ph = |v: &Option<(usize, usize)>| v.map(|t| t.0 as i64).unwrap_or(-1);
+          if p.nine.is_some() != c.nine.is_some() || ph(&p.dog) != ph(&c.dog) || ph(&p.plum) != ph(&c.plum) {
+            check_day(ctx, &civ, &tm, o - 1, l);
+            check_day(ctx, &civ, &tm, o, l);
+          }
+        }
+        prev = cur;
+      }
+    });
+    ctx.subspace("every year 2..9998: each day on which the Nines start or end or the model's Dog-day / Plum-rain phase changes, and the day before it, x 5 series", done, 9997);
+  }
   if ctx.primary() {
     for d in [(2024, 2, 11), (2024, 7, 15), (2024, 6, 11), (2023, 12, 22)] {
       let o = civ.ord(d.0, d.1, d.2).unwrap();
